@@ -412,7 +412,8 @@ func finishReferral(m *dns.Msg, do bool) *dns.Msg {
 
 // HostedZone picks which of a server's zones answers (qname, qtype): the
 // deepest hosted zone containing qname; a DS query at a hosted zone's apex
-// belongs to its parent when the parent is hosted on the same server.
+// belongs to the parent side when the parent, or any other ancestor zone, is
+// hosted on the same server.
 func (u *Universe) HostedZone(server, qname string, qtype uint16) *Zone {
 	srv := u.servers[server]
 	if srv == nil {
@@ -427,7 +428,11 @@ func (u *Universe) HostedZone(server, qname string, qtype uint16) *Zone {
 		if qtype == dns.TypeDS && z.Apex == qname && qname != "." {
 			hostedParent := false
 			for _, p := range srv.Zones {
-				if p != z && p.inZone(qname) && p == z.Parent {
+				// The parent side owns DS. A server that hosts the parent answers
+				// from it; one that hosts only a more distant ancestor answers from
+				// that (a referral toward the parent), which is what BIND and NSD
+				// do (DS lookups search for the zone above the name first).
+				if p != z && p.inZone(qname) && dns.CountLabel(p.Apex) < dns.CountLabel(z.Apex) {
 					hostedParent = true
 				}
 			}
